@@ -53,6 +53,7 @@ pub fn all() -> Vec<Regression> {
         Regression { name: "D34-rk23-xout-interpolant", property: "C07", what: "RK23 built with dense_output(false): the interpolant obtained through XOut must reproduce the step's end state (was all zeros)", f: d34 },
         Regression { name: "D35-sol-range-rounding", property: "C06", what: "sol(t) and sol_many must succeed at every reported time (RK23, lin3 on [0, 0.38688] and [0, 0.4461], rtol 1e-2: last time one ulp beyond the last segment)", f: d35 },
         Regression { name: "D36-radau-min-step-longer-than-interval", property: "C04", what: "Radau with min_step = 1e-3 on [0, 5e-4] (both directions) must return, not panic", f: d36 },
+        Regression { name: "D41-initial-step-below-an-ulp-of-x0", property: "C01", what: "the decay and the oscillator in a time unit 2^40 times smaller, integrated from x0 = 2.2e12 / 3.3e12 down to 0.2 without first_step, must reach xend with RK23, DOPRI5 and RADAU at rtol 1e-3", f: d41 },
         Regression { name: "D40-landing-within-rounding-of-xend", property: "C05", what: "Radau and BDF with first_step = max_step = 0.1 on [3e5, 3e5 + 1] (either direction) must deliver all three requested times x0, x0 + 0.5, xend and end at xend itself", f: d40 },
         Regression { name: "D39-stiffness-test-extreme-scale", property: "C13", what: "DOPRI5 / DOP853 on a mildly stiff linear system scaled by 2^-600 and 2^600 must stop with the same status after the same number of steps as the unscaled run", f: d39 },
         Regression { name: "D37-rk4-step-below-one-ulp", property: "C04", what: "RK4 with first_step = 1e-8 from x0 = +-1e9 must return (with a non-success status), not spin at x0", f: d37 },
@@ -599,6 +600,26 @@ fn d28() -> Result<(), String> {
     for w in s.t.windows(2) {
         if !(w[1] > w[0]) {
             return Err(format!("t not strictly increasing: {:e} then {:e}", w[0], w[1]));
+        }
+    }
+    Ok(())
+}
+
+fn d41() -> Result<(), String> {
+    let c40 = 2f64.powi(-40);
+    for (b, span) in [(Base::Decay(-1.0), 2.0), (Base::Harmonic(1.0), 3.0)] {
+        let p = crate::problems::timescale(&base(b), c40);
+        let (lo, hi) = (0.2, 0.2 + span / c40);
+        let yhi = p.exact(lo, &p.y0, hi).ok_or("no exact solution")?;
+        for m in [Method::RK23, Method::DOPRI5, Method::RADAU] {
+            let mut c = Cfg::new(m, hi, lo, &yhi).tol(1e-3, 1e-5);
+            c.user_jac = true;
+            let r = run(&p, &c);
+            let s = sol_of(&r)?;
+            // (the last step x + (xend - x) is taken from 1e11 or so: it ends within an ulp of that, not on 0.2 itself)
+            if s.status != Status::Success || !s.t.last().map(|t| (t - lo).abs() <= 4.0 * f64::EPSILON * hi).unwrap_or(false) {
+                return Err(format!("{} on {} from {:e} down to {}: {:?} with {} samples", mname(m), p.name, hi, lo, s.status, s.t.len()));
+            }
         }
     }
     Ok(())
